@@ -175,6 +175,19 @@ def run_case(case):
             out["violations"].append({"clause": "value = stored entry selected by the labels (through the indexer), multilinearly interpolated", "detail": f"{sig} point { {k: str(v) for k, v in pt.items()} } ({kind}): implementation {fr(got)}, model {a}", "key": "C14:value"})
             break
         # property clauses on the implementation alone
+        if kind in ("node", "cell"):
+            # C14_no_overshoot_inside_grid: inside the grid the value stays within the range of the selected stored values
+            sel = []
+            if sp:
+                sel.append(int(indexer[tuple(int(pt[k]) for k, _ in sp)]))
+            sel += [int(pt[k]) for k, _ in dd]
+            sub = np.asarray(varr)[tuple(sel)] if sel else np.asarray(varr)
+            lo_v, hi_v = float(np.min(sub)), float(np.max(sub))
+            slack = 1e-9 * max(1.0, abs(lo_v), abs(hi_v))
+            out["hist"]["no_overshoot_checked"] = out["hist"].get("no_overshoot_checked", 0) + 1
+            if not (lo_v - slack <= got <= hi_v + slack):
+                out["violations"].append({"clause": "inside the grid the value lies within the range of the stored values it interpolates", "detail": f"{sig} point { {k: str(v) for k, v in pt.items()} } ({kind}): {got} outside [{lo_v}, {hi_v}]", "key": "C14:overshoot"})
+                break
         if kind == "node":
             idx = []
             if sp:
